@@ -199,6 +199,134 @@ def check_mixed_units(case, ctx):
                         f'unit-less inputs)', entry=name)
 
 
+def _flat(res):
+    out = R.exercise(res)
+    return {k: np.asarray(v, float) for k, v in out.items()}
+
+
+def check_equivalent_units(case, ctx):
+    """Companion inputs in a different but convertible unit (data in Jy,
+    error / background / threshold / init_params in mJy, numerically x1000):
+    either rejected (most APIs document "same units") or the result equals
+    the all-Jy result as physical quantities.  Never a silently different
+    answer."""
+    import astropy.units as u
+    from astropy.nddata import NDData, StdDevUncertainty
+    from astropy.table import QTable
+    from photutils.aperture import ApertureStats, aperture_photometry
+    from photutils.detection import DAOStarFinder, find_peaks
+    from photutils.profiles import RadialProfile
+    from photutils.psf import PSFPhotometry, SourceGrouper
+    from photutils.segmentation import (SourceCatalog, detect_sources,
+                                        detect_threshold)
+    from photutils.utils import calc_total_error
+    with warnings.catch_warnings():
+        warnings.simplefilter('ignore')
+        X = R.make_context(case['scene'], 'quantity', 'clean')
+    mJy = u.mJy
+    d = X.d
+    thr = X.thr_q
+
+    def conv(q, on):
+        return q.to(mJy) if on else q
+
+    def init(on_flux, on_bkg, with_bkg):
+        t = QTable()
+        t['x'] = np.asarray(X.init['x'], float)
+        t['y'] = np.asarray(X.init['y'], float)
+        t['flux'] = conv(X.init['flux'], on_flux)
+        if with_bkg:
+            t['local_bkg'] = conv(np.full(len(t), float(case['scene']['pedestal'])) * u.Jy, on_bkg)
+        return t
+
+    def psf(on_flux, on_bkg, on_err, with_bkg):
+        ph = PSFPhotometry(X.psf.copy(), (5, 5), grouper=SourceGrouper(6.0),
+                           aperture_radius=4.0)
+        return ph(d, error=conv(X.e, on_err), init_params=init(on_flux, on_bkg, with_bkg))
+
+    def psf_nd(on):
+        ph = PSFPhotometry(X.psf.copy(), (5, 5), aperture_radius=4.0)
+        nd = NDData(d.value, unit=d.unit,
+                    uncertainty=StdDevUncertainty(conv(X.e, on).value,
+                                                  unit=conv(X.e, on).unit))
+        return ph(nd, init_params=init(False, False, False))
+
+    calls = {
+        'aperture_photometry': lambda on: aperture_photometry(d, X.aper, error=conv(X.e, on)),
+        'ApertureStats': lambda on: ApertureStats(d, X.aper, error=conv(X.e, on)),
+        'ApertureStats_local_bkg': lambda on: ApertureStats(
+            d, X.aper, local_bkg=conv(np.full(len(X.aper), 2.0) * u.Jy, on)),
+        'SourceCatalog_error': lambda on: SourceCatalog(d, X.segm, error=conv(X.e, on)),
+        'SourceCatalog_background': lambda on: SourceCatalog(d, X.segm, background=conv(X.b, on)),
+        'RadialProfile': lambda on: RadialProfile(d, X.xy, np.arange(6), error=conv(X.e, on)),
+        'detect_threshold': lambda on: detect_threshold(d, 2.0, error=conv(X.e, on), background=X.b),
+        'calc_total_error': lambda on: calc_total_error(d, conv(X.e, on), 2.0 * u.electron / u.Jy),
+        'DAOStarFinder': lambda on: DAOStarFinder(conv(thr, on), 4.0)(d),
+        'find_peaks': lambda on: find_peaks(d, conv(thr, on), box_size=5),
+        'detect_sources': lambda on: detect_sources(d, conv(thr, on), 5),
+        'PSFPhotometry_init_flux': lambda on: psf(on, False, False, False),
+        'PSFPhotometry_init_local_bkg': lambda on: psf(False, on, False, True),
+        'PSFPhotometry_init_both': lambda on: psf(on, on, False, True),
+        'PSFPhotometry_error': lambda on: psf(False, False, on, False),
+        'PSFPhotometry_nddata_uncertainty': psf_nd,
+    }
+    ctx.mark(True)
+    for name, fn in calls.items():
+        with warnings.catch_warnings():
+            warnings.simplefilter('ignore')
+            base = fn(False)
+            try:
+                got = fn(True)
+            except (ValueError, u.UnitsError, u.UnitConversionError):
+                ctx.event('rejected')
+                continue
+            except Exception as exc:  # noqa: BLE001
+                raise Violation('equivalent_units_wrong_error',
+                                f'{name}: {exc!r:.200} instead of '
+                                'ValueError/UnitsError', entry=name)
+        ctx.event('converted')
+
+        def phys(res):
+            # physical values: every unit-ful output expressed in Jy-based
+            # units before the units are dropped
+            out = {}
+            if hasattr(res, 'colnames'):
+                for c in res.colnames:
+                    col = res[c]
+                    un = getattr(col, 'unit', None)
+                    try:
+                        if un is not None and un.is_equivalent(u.Jy):
+                            col = col.to(u.Jy)
+                        elif un is not None and un.is_equivalent(u.Jy ** 2):
+                            col = col.to(u.Jy ** 2)
+                        out[c] = np.asarray(getattr(col, 'value', col), float)
+                    except Exception:
+                        continue
+                return out
+            if isinstance(res, u.Quantity):
+                return {'value': res.to(u.Jy).value if res.unit.is_equivalent(u.Jy)
+                        else res.value}
+            return _flat(res)
+        b, g = phys(base), phys(got)
+        if set(b) != set(g):
+            raise Violation('equivalent_units_differs',
+                            f'{name}: outputs {sorted(set(b) ^ set(g))} appear '
+                            'only for one unit choice', entry=name)
+        for k in b:
+            if b[k].shape != g[k].shape or not np.allclose(
+                    b[k], g[k], rtol=1e-6, atol=1e-9, equal_nan=True):
+                raise Violation('equivalent_units_differs',
+                                f'{name}: {k} differs when the companion '
+                                f'input is given in mJy instead of Jy '
+                                f'({b[k].ravel()[:4]} vs {g[k].ravel()[:4]})',
+                                entry=name, column=k)
+
+
+@st.composite
+def equiv_cases(draw):
+    return {'scene': draw(scenes())}
+
+
 @st.composite
 def mixed_cases(draw):
     return {'scene': draw(scenes()),
@@ -212,6 +340,10 @@ SUBCHECKS = [
              'representation != float64 baseline; the matrix entries x '
              'representations is covered by sampling scenes',
              quick=(16, 25), thorough=(16, 300), budget_quick=100),
+    SubCheck('equivalent_units', equiv_cases(), check_equivalent_units,
+             'every case: companion inputs in mJy with data in Jy are either '
+             'rejected or give physically equal results',
+             quick=(4, 6), thorough=(8, 100)),
     SubCheck('mixed_units', mixed_cases(), check_mixed_units,
              'every case: unit-ful mixed with unit-less (or incompatible) '
              'inputs must raise ValueError/UnitsError',
